@@ -15,7 +15,7 @@ RULE = (
     "Faults = truncations and length-prefix corruptions of valid encodings.  For every (schema, "
     "struct, value) of the codec workload the encoder's own output (checked to decode back to v) is "
     "cut at EVERY byte boundary 0..len-1 (quick: for encodings > 24 bytes the first 8, last 8 and 6 seeded "
-    "boundaries; thorough: > 64 bytes: 24 + 24 + 16); each u32 count is replaced by count+1, 2*count+1, 2^16, 2^31, 2^32-1 (tail kept, "
+    "boundaries; thorough: > 64 bytes: 24 + 24 + 16; encodings above 8 KB (thorough 64 KB) are skipped); each u32 count is replaced by count+1, 2*count+1, 2^16, 2^31, 2^32-1 (tail kept, "
     "and tail dropped right after the count); each set optional flag is kept with its payload "
     "removed.  Oracle: a strict prefix must raise (the format is prefix-free per schema); for "
     "corrupted inputs the reference decoder decides (Truncated => must raise, else must return the "
@@ -275,6 +275,10 @@ def run(run):
             except Exception:
                 continue  # C01's business
             if not ref.same(back, v) or len(data) == 0:
+                continue
+            if len(data) > run.pick(8192, 65536):
+                # every fault costs one decode of the whole input (the decoder loads it bit by bit)
+                run.count("encodings_over_the_size_bound_skipped")
                 continue
             run.count("valid_encodings")
             for kind, inp, cls in faults_for(run, sch, name, v, data, "%s/%s/%d" % (uid, name, j)):
